@@ -339,6 +339,33 @@ def h_fault_text(e, kind, i):
     e.claim("canary:fault", False)
 
 
+def h_directive_shapes(e, kind, n):
+    """every text of exactly n lines over {.data, .text, an instruction, a declaration, a label,
+    blank}: loading succeeds or raises a ParserException with a line number inside the text"""
+    import itertools
+    from architecture_simulator.simulation.riscv_simulation import RiscvSimulation
+    from architecture_simulator.simulation.toy_simulation import ToySimulation
+    from architecture_simulator.isa.parser_exceptions import ParserException
+
+    lines = [".data", ".text", "nop" if kind == "riscv" else "NOP", "v%d: .word 1", "l%d:", ""]
+    bad = []
+    count = 0
+    for combo in itertools.product(range(len(lines)), repeat=n):
+        t = "\n".join((lines[k] % i if "%d" in lines[k] else lines[k]) for i, k in enumerate(combo))
+        sim = RiscvSimulation() if kind == "riscv" else ToySimulation()
+        count += 1
+        try:
+            sim.load_program(t)
+        except ParserException as ex:
+            if not (isinstance(ex.line_number, int) and 1 <= ex.line_number <= n):
+                bad.append((t, "ParserException with line %r" % (ex.line_number,)))
+        except Exception as ex:  # noqa
+            bad.append((t, type(ex).__name__ + ": " + str(ex)[:60]))
+    e.observe("texts", count)
+    e.claim("directive-shapes-%d" % n, not bad, {"first": bad[:3], "count": len(bad)})
+    e.claim("canary:shapes", count == 0)
+
+
 def h_runtime(e, m, mode):
     """a faulting instruction reports its own address and printed form (both modes)"""
     from symx.state import mk_riscv, place_instructions
@@ -376,7 +403,7 @@ def h_runtime(e, m, mode):
     return "ok"
 
 
-HARNESSES = {"lint": h_lint, "fault_text": h_fault_text, "runtime": h_runtime}
+HARNESSES = {"lint": h_lint, "fault_text": h_fault_text, "runtime": h_runtime, "directive_shapes": h_directive_shapes}
 
 
 def jobs(tier, seed):
@@ -393,6 +420,9 @@ def jobs(tier, seed):
         out.append({"label": "fault-riscv-%d" % i, "harness": "fault_text", "args": {"kind": "riscv", "i": i}, "cost": 1, "validate": False})
     for i in range(len(TOY_FAULT_TEXTS)):
         out.append({"label": "fault-toy-%d" % i, "harness": "fault_text", "args": {"kind": "toy", "i": i}, "cost": 1, "validate": False})
+    for kind in ("riscv", "toy"):
+        for n in (1, 2, 3, 4) + ((5,) if tier == "thorough" else ()):
+            out.append({"label": "shapes-%s-%d" % (kind, n), "harness": "directive_shapes", "args": {"kind": kind, "n": n}, "cost": 6**n / 50, "validate": False})
     for m in ("lb", "lh", "lw", "lbu", "lhu", "sb", "sh", "sw", "ecall"):
         for mode in ("single_stage_pipeline", "five_stage_pipeline"):
             out.append({"label": "runtime-%s-%s" % (m, mode[:4]), "harness": "runtime", "args": {"m": m, "mode": mode}, "cost": 3})
